@@ -57,6 +57,7 @@ class Harness:
     def run_path(self, ctx):
         c, I = ctx, self.I
         w = LocalWorld(I, ctx, self.uuids, self.props)
+        w.allow_empty = True
         w.ts_terms = []
         pre = w.symbolic_prestate()
         self.scratch = {u: clone_val(tm) for u, tm in pre}
